@@ -229,6 +229,37 @@ def correspondence(ctx):
         whole = ln.split()[4] in [frames.hx(fb) for _, fb in multi[:1]]   # (only the uncut line of the first frame is compared below)
         if r.startswith("ok") and int(r.split()[1]) > int(ln.split()[3]):
             ctx.violation("decoding with decompression parameters returned more than the capacity: %s" % r, dict(kind="monitor", op=ln[:400000], result=r))
+    # (c3) synthesized frames with > 64 KiB of literals and a few very long matches, decoded into every kind of capacity (exact, slightly too
+    # small, far too small) by the default sequence decoder AND by the prefetching one (forced-long sanitizer build): an overflow that is
+    # only discovered among the last sequences of the block must still be reported before anything is written past the destination
+    import synth
+    blines, binfo = [], []
+    for _ in range(40 if ctx.quick() else 600):
+        f, x = synth.biglit_frame(rng)
+        n_ = len(x)
+        for cp in sorted(set([n_, n_ - 1, n_ - rng.randint(2, 600), n_ - rng.randint(600, 5000), max(0, n_ - rng.randint(5000, 70000)), rng.randrange(0, n_)])):
+            blines.append("dcap %d %s" % (cp, f.hex())); binfo.append((x, cp))
+    bwant = frames.run_lines(plain, ["xxh " + x.hex() for x, cp in binfo])[1]
+    for variant in ("san", "seqlongsan"):
+        vexe = frames.harness(variant)
+        def run_v(ch, vexe=vexe, variant=variant):
+            rc, out, err = frames.run_lines(vexe, ch, timeout=1800)
+            if rc != 0 or len(out) != len(ch):
+                bad = ch[min(len(out), len(ch) - 1)]
+                ctx.violation("sanitizer build (%s) aborted while decoding a valid frame into %s bytes: %s" % (variant, bad.split()[1], (err or "")[-600:]), dict(kind="monitor", op=bad[:400000], variant=variant, stderr=(err or "")[-3000:]))
+                out = out + ["crash"] * (len(ch) - len(out))
+            return out
+        bres = frames.parallel(run_v, frames.split_chunks(blines, 16))
+        for ln, r, (x, cp), w in zip(blines, bres, binfo, bwant):
+            ev += 1
+            if r == "crash":
+                continue
+            if "OVERRUN" in r or "MORE-THAN" in r:
+                ctx.violation("decompression (%s) wrote past the capacity %d: %s" % (variant, cp, r), dict(kind="monitor", op=ln[:400000], variant=variant, result=r))
+            elif cp >= len(x) and r.split("OVER")[0].strip() != w:
+                ctx.violation("decompression (%s) of a valid frame into %d >= %d bytes gives %r, expected %r" % (variant, cp, len(x), r, w), dict(kind="monitor", op=ln[:400000], variant=variant, result=r))
+            elif cp < len(x) and r.startswith("ok"):
+                ctx.violation("decompression (%s) into a too-small capacity %d (< %d) reported success" % (variant, cp, len(x)), dict(kind="monitor", op=ln[:400000], variant=variant, result=r))
     got = frames.parallel(run_checked, frames.split_chunks(lines, 16))
     walk = frames.model_lines(["walk " + frames.hx(d[2]) for d in dinfo if d[0] == "insp"])
     wi = 0
@@ -281,7 +312,10 @@ def correspondence(ctx):
 def replay(ctx, data):
     exe = frames.harness("san")
     if data.get("op"):
-        return dict(violates=True, result=frames.run_lines(exe, [data["op"]])[1])
+        if data.get("variant"):
+            exe = frames.harness(data["variant"])
+        rc, out, err = frames.run_lines(exe, [data["op"]])
+        return dict(violates=rc != 0 or any("OVER" in o or "MORE" in o for o in out), rc=rc, result=out, stderr=err[-1500:])
     x = bytes.fromhex(data["input_hex"]) if data.get("input_hex", "-") != "-" else b""
     p = {int(k): v for k, v in (data.get("params") or {}).items()}
     rc, out, err = frames.run_lines(exe, ["%s %s %d %s" % ("ccaps" if data.get("api") == "compressSequences" else "ccap", frames.pstr(p), data.get("capacity", 0), frames.hx(x))])
